@@ -37,6 +37,7 @@ static void body(mvprog::PT& p) {
     for (size_t i = 0; i < p.ops.size(); i++) {
         char op = p.ops[i];
         if (op == 'y') { thread_yield(); continue; }
+        if (op == 'p') { int npad = pmc_choose(3, PMC_PROG, 0, "pad yields"); for (int kk = 0; kk < npad; kk++) thread_yield(); continue; }   // every arrival order on one vCPU
         if (op == 'U') {
             mv_yield("holding");
             G->held[me].on = false;
